@@ -432,6 +432,48 @@ class Evaluator:
             return
         if isinstance(st, (ast.Import, ast.ImportFrom)):
             return
+        if isinstance(st, ast.Delete):
+            for t in st.targets:
+                if isinstance(t, ast.Name):
+                    env.pop(t.id, None)
+                elif isinstance(t, ast.Subscript) and not isinstance(t.slice, ast.Slice):
+                    key_ = self.ev(t.slice, env)
+
+                    def without(c, key_=key_):
+                        if c.kind == 'dict' and c.items is not None:
+                            kept = tuple(kv for kv in c.items if not self.eq(kv.items[0], key_))
+                            if len(kept) == len(c.items):
+                                raise AbsRaise('KeyError', 'del of a missing key')
+                            return AV('dict', items=kept)
+                        if c.kind == 'list' and c.items is not None and isinstance(key_.val, int):
+                            items = list(c.items)
+                            try:
+                                del items[key_.val]
+                            except IndexError:
+                                raise AbsRaise('IndexError', 'list assignment index out of range')
+                            return AV('list', items=tuple(items))
+                        raise Unknown('del on a value of unknown contents')
+                    self.change_container(t.value, without, env)
+                elif isinstance(t, ast.Subscript) and isinstance(t.slice, ast.Slice):
+                    def bnd(x):
+                        if x is None:
+                            return None
+                        v_ = self.ev(x, env)
+                        if not isinstance(v_.val, int):
+                            raise Unknown('slice bound')
+                        return v_.val
+                    sl_ = slice(bnd(t.slice.lower), bnd(t.slice.upper), bnd(t.slice.step))
+
+                    def without_slice(c, sl_=sl_):
+                        if c.kind == 'list' and c.items is not None:
+                            items = list(c.items)
+                            del items[sl_]
+                            return AV('list', items=tuple(items))
+                        raise Unknown('del of a slice of a value of unknown contents')
+                    self.change_container(t.value, without_slice, env)
+                else:
+                    raise Unknown('del target')
+            return
         if isinstance(st, ast.With):
             for it in st.items:
                 cm_ = self.ev(it.context_expr, env)
@@ -1371,6 +1413,12 @@ class Evaluator:
         if name == 'isinstance':
             v = self.ev(node.args[0], env)
             return const_av(any(is_instance(v, c) for c in self._class_names(node.args[1], env)))
+        if name == 'issubclass' and len(node.args) == 2 and self.class_table:
+            a_ = self.ev(node.args[0], env)
+            if self.is_class_value(a_):
+                names_ = self._class_names(node.args[1], env)
+                return const_av(any(n_ in self.class_table[a_.val[1]]['mro'] for n_ in names_))
+            raise Unknown('issubclass of a value that is not a modelled class')
         if name == 'type' and len(node.args) == 1:
             v = self.ev(node.args[0], env)
             if v.kind == 'obj' and isinstance(v.val, tuple):
@@ -1463,6 +1511,32 @@ class Evaluator:
                 raise Unknown(f'{name} of values without a concrete carrier')
             pick = max if name == 'max' else min
             return const_av(pick(c_.val for c_ in cand))
+        if name in ('sorted', 'min', 'max') and len(node.args) == 1 and node.keywords and \
+                all(k.arg in ('key', 'reverse') for k in node.keywords) and (name == 'sorted' or all(k.arg == 'key' for k in node.keywords)):
+            v = self.ordered(self.ev(node.args[0], env))
+            if v.items is None:
+                raise Unknown(name)
+            kf_ = next((self.ev(k.value, env) for k in node.keywords if k.arg == 'key'), None)
+            rev_ = next((truth(self.ev(k.value, env)) for k in node.keywords if k.arg == 'reverse'), False)
+
+            def sort_key(x):
+                kx = self.call_value(kf_, [x]) if kf_ is not None and kf_.kind != 'none' else x
+                if kx.items is not None and all(y.val is not None and not isinstance(y.val, tuple) for y in kx.items):
+                    return tuple(y.val for y in kx.items)
+                if kx.val is not None and not isinstance(kx.val, tuple):
+                    return kx.val
+                if isinstance(kx.val, tuple) and kx.val[0] in ('day', 'ymd'):
+                    return kx.val[1:]
+                raise Unknown(f'{name} by a key without a concrete carrier')
+            try:
+                items = sorted(v.items, key=sort_key, reverse=rev_ or name == 'max')          # stable, like the builtin
+            except TypeError as e_:
+                raise AbsRaise('TypeError', str(e_))
+            if name == 'sorted':
+                return AV('list', items=tuple(items))
+            if not items:
+                raise AbsRaise('ValueError', name)
+            return items[0]                  # the first smallest / the first largest
         if name in ('sorted', 'min', 'max') and len(node.args) == 1 and not node.keywords:
             v = self.ev(node.args[0], env)
             if v.items is None:
@@ -1507,6 +1581,15 @@ class Evaluator:
             if v.items is None:
                 raise Unknown('enumerate of a collection of unknown contents')
             return AV('list', items=tuple(AV('tuple', items=(const_av(start + i), x)) for i, x in enumerate(v.items)))
+        if ast.unparse(f) == 'dict.fromkeys' and 1 <= len(node.args) <= 2:
+            seq_ = self.ordered(self.ev(node.args[0], env))
+            if seq_.items is None:
+                raise Unknown('dict.fromkeys of unknown contents')
+            val_ = self.ev(node.args[1], env) if len(node.args) == 2 else AV('none')
+            out_ = AV('dict', items=())
+            for x_ in seq_.items:
+                out_ = self._with_entry(out_, x_, val_)
+            return out_
         if name == 'dict' and not node.args:
             out_ = AV('dict', items=())
             for k in node.keywords:
@@ -1730,6 +1813,23 @@ class Evaluator:
                     self._write_back(node, env)
                     return res_
                 raise AbsRaise('AttributeError', f'{recv.val[2]} has no method {f.attr}')
+            if recv.kind == 'dict' and recv.items is not None and f.attr in ('setdefault', 'pop') and 1 <= len(node.args) <= 2 and \
+                    isinstance(f.value, (ast.Name, ast.Attribute, ast.Subscript)):
+                k_ = self.ev(node.args[0], env)
+                d_ = self.ev(node.args[1], env) if len(node.args) == 2 else None
+                hit_ = next((kv for kv in recv.items if self.eq(kv.items[0], k_)), None)
+                if f.attr == 'setdefault':
+                    if hit_ is not None:
+                        return hit_.items[1]
+                    val_ = d_ if d_ is not None else AV('none')
+                    self.change_container(f.value, lambda c: self._with_entry(c, k_, val_), env)
+                    return val_
+                if hit_ is None:
+                    if d_ is None:
+                        raise AbsRaise('KeyError', 'pop of a missing key')
+                    return d_
+                self.change_container(f.value, lambda c: AV('dict', items=tuple(kv for kv in c.items if kv is not hit_)), env)
+                return hit_.items[1]
             if recv.kind == 'dict' and recv.items is not None and f.attr in ('keys', 'values', 'items', 'copy') and not node.args:
                 if f.attr == 'copy':
                     return AV('dict', items=recv.items)
